@@ -609,3 +609,98 @@ def desugar_match(trees: Dict[str, ast.Module]) -> int:
     for t in trees.values():
         T().visit(t)
     return count[0]
+
+
+# --------------------------------------------------------------------------- dataclasses: the constructor they generate, written out
+
+def materialise_dataclass_init(trees: Dict[str, ast.Module]) -> int:
+    """``@dataclass class C: a: int; b: int = 0; c: list = field(default_factory=list, init=False)`` gets the ``__init__`` the decorator
+    generates, as source: ``def __init__(self, a, b=0): self.a = a; self.b = b; self.c = list(); self.__post_init__()`` (the last only
+    when the class defines it).  Fields of dataclass bases defined in the same module come first, as the decorator orders them.
+    Classes that write their own ``__init__`` or pass ``init=False`` are left alone.  -> number of classes"""
+    n = 0
+
+    def is_dc(c: ast.ClassDef):
+        for d in c.decorator_list:
+            t = ast.unparse(d.func if isinstance(d, ast.Call) else d)
+            if t.split('.')[-1] == 'dataclass':
+                if isinstance(d, ast.Call) and any(k.arg == 'init' and isinstance(k.value, ast.Constant) and k.value.value is False for k in d.keywords):
+                    return False
+                return True
+        return False
+
+    def fields_of(c: ast.ClassDef, classes):
+        out = []
+        for b in c.bases:
+            bn = b.id if isinstance(b, ast.Name) else None
+            if bn in classes and is_dc(classes[bn]):
+                out.extend(fields_of(classes[bn], classes))
+        own = []
+        for st in c.body:
+            if isinstance(st, ast.AnnAssign) and isinstance(st.target, ast.Name):
+                ann = ast.unparse(st.annotation)
+                if ann.startswith(('ClassVar', 'typing.ClassVar')):
+                    continue
+                own.append((st.target.id, st.value))
+        names = [f[0] for f in own]
+        out = [f for f in out if f[0] not in names] + own
+        return out
+    for t in trees.values():
+        classes = {c.name: c for c in t.body if isinstance(c, ast.ClassDef)}
+        for c in classes.values():
+            if not is_dc(c) or any(isinstance(st, ast.FunctionDef) and st.name == '__init__' for st in c.body):
+                continue
+            params, defaults, body = [], [], []
+            ok = True
+            for name, val in fields_of(c, classes):
+                init, default, factory = True, val, None
+                if isinstance(val, ast.Call) and ast.unparse(val.func).split('.')[-1] == 'field':
+                    default = None
+                    for k in val.keywords:
+                        if k.arg == 'init' and isinstance(k.value, ast.Constant):
+                            init = bool(k.value.value)
+                        elif k.arg == 'default':
+                            default = k.value
+                        elif k.arg == 'default_factory':
+                            factory = k.value
+                if init:
+                    params.append(ast.arg(arg=name))
+                    if default is not None or factory is not None:
+                        defaults.append(default if default is not None else ast.Constant(value=None))
+                    elif defaults:
+                        ok = False      # (the decorator itself rejects a field without default after one with)
+                    if factory is not None and default is None:
+                        # ``x if x is not <missing> else factory()``: read as the parameter; the factory applies when it is not given
+                        body.append(ast.Assign(targets=[ast.Attribute(value=ast.Name(id='self', ctx=ast.Load()), attr=name, ctx=ast.Store())],
+                                               value=ast.IfExp(test=ast.Compare(left=ast.Name(id=name, ctx=ast.Load()), ops=[ast.IsNot()],
+                                                                                comparators=[ast.Constant(value=None)]),
+                                                               body=ast.Name(id=name, ctx=ast.Load()),
+                                                               orelse=ast.Call(func=factory, args=[], keywords=[]))))
+                        continue
+                    body.append(ast.Assign(targets=[ast.Attribute(value=ast.Name(id='self', ctx=ast.Load()), attr=name, ctx=ast.Store())],
+                                           value=ast.Name(id=name, ctx=ast.Load())))
+                else:
+                    v = ast.Call(func=factory, args=[], keywords=[]) if factory is not None else default
+                    if v is None:
+                        continue
+                    body.append(ast.Assign(targets=[ast.Attribute(value=ast.Name(id='self', ctx=ast.Load()), attr=name, ctx=ast.Store())], value=v))
+            if not ok:
+                continue
+            if any(isinstance(st, ast.FunctionDef) and st.name == '__post_init__' for st in c.body):
+                body.append(ast.Expr(value=ast.Call(func=ast.Attribute(value=ast.Name(id='self', ctx=ast.Load()), attr='__post_init__', ctx=ast.Load()),
+                                                    args=[], keywords=[])))
+            fn = ast.FunctionDef(name='__init__',
+                                 args=ast.arguments(posonlyargs=[], args=[ast.arg(arg='self')] + params, vararg=None, kwonlyargs=[],
+                                                    kw_defaults=[], kwarg=None, defaults=defaults),
+                                 body=body or [ast.Pass()], decorator_list=[], returns=None, type_comment=None)
+            if hasattr(fn, 'type_params'):
+                fn.type_params = []
+            fn._dataclass_synth = True
+            ast.copy_location(fn, c)
+            for x in ast.walk(fn):
+                ast.copy_location(x, c)
+            ast.fix_missing_locations(fn)
+            # after the docstring and the field declarations
+            c.body.append(fn)
+            n += 1
+    return n
